@@ -571,3 +571,29 @@ R.contract(
     unreachable_ok=["hits = []", "data = dict(hit)", "data['id'] = str(data.get('id'))", "if 'score' not in data:",
                     "data['score'] = float(data.get('_score', 0.0))", "normalised.append(data)"],
 )
+
+# ------------------------------------------------------------------ items_for_fusion: every hit becomes one fusion candidate, in order
+# "Rerank layers (hybrid graph rerank, lexical fusion, MMR) only permute that set": apply_quality rebuilds the hit list
+# from the fused / MMR-ordered *candidates*, so a hit that is not turned into a candidate here disappears from the result.
+# Clause: one candidate per hit, same order, id and text carried, surrogate score strictly decreasing with the rank
+# (total - idx), so the semantic ranking fed to fuse is the retrieval order.
+R.record("FusionRef", {"id": "Un[FId]", "text": "str"})
+R.keyrec("FusionCand", {"id": "Un[FId]", "score": "float", "text": "str"})
+R.contract(
+    "clematis/engine/stages/t2/helpers.py:items_for_fusion", "C11",
+    types={"retrieved_list": "List[FusionRef]"}, returns="List[FusionCand]",
+    ensures=[
+        ("one-candidate-per-hit", "len(result) == len(retrieved_list)"),
+        ("same-order-id-and-text-carried",
+         "forall(i, 0 <= i < len(retrieved_list), result[i]['id'] == retrieved_list[i].id and result[i]['text'] == retrieved_list[i].text)"),
+        ("surrogate-score-is-total-minus-rank",
+         "forall(i, 0 <= i < len(retrieved_list), result[i]['score'] == len(retrieved_list) - i)"),
+        ("input-untouched", "seq_eq(retrieved_list, old(retrieved_list))"),
+    ],
+    raises="none", callee=False,
+    loops={0: {"inv": [
+        "len(out) == _i",
+        "forall(j, 0 <= j < _i, out[j]['id'] == retrieved[j].id and out[j]['text'] == retrieved[j].text and out[j]['score'] == total - j)",
+    ]}},
+    locals={"out": "List[FusionCand]"},
+)
